@@ -20,8 +20,8 @@ CLAIM = {
             "sequential facts (LIFO / FIFO order, exact full / empty, capacity 0 never stores, which justifies the depth-0 pool shim).",
     "note": "Trusted: clang lowering of __atomic builtins (seq_cst checked by the translator), the IR->C translator (validated every run "
             "against the real inline functions: evidence.translation_validation), CBMC 6.11 + kissat, sequential consistency. Bounds are "
-            "small because the formulas are large (2M variables for push || pop): quick = LIFO push || pop (capacity 1, also with tags "
-            "aged to 0xffff so that the tag wraps) + sequential programs; thorough adds FIFO push || pop (15 min), pool alloc;free || "
+            "small because the formulas are large (2M variables for push || pop): quick = LIFO push || pop (capacity 1) + FIFO pop || pop on two elements (2 rounds) "
+            "+ sequential programs; thorough adds FIFO push || pop (15 min), pool alloc;free || "
             "alloc, two operations per thread (stretch queries: reported, not fatal, if undecided). uring_lifo/fifo fields of struct "
             "uring (length, elems) are treated as constants. Counterexamples are replayed natively on the gcc build of the generated "
             "code, not on real pthreads. Not covered: 3 threads, capacities > 2, weak memory.",
@@ -59,13 +59,16 @@ def build(tier):
     qs = [q("lifo_P|O_cap1", "lifo", ["P", "O"], 1, 4, sample=True),
           q("lifo_seq_PPO_cap2", "lifo", ["PPO", ""], 2, 4), q("lifo_seq_PPP_cap2_full", "lifo", ["PPP", ""], 2, 4),
           q("lifo_seq_PO_cap0", "lifo", ["PO", ""], 0, 3), q("fifo_seq_PPO_cap2", "fifo", ["PPO", ""], 2, 4, sample=True),
-          q("fifo_seq_OPO_cap1", "fifo", ["OPO", ""], 1, 4)]
+          q("fifo_seq_OPO_cap1", "fifo", ["OPO", ""], 1, 4),
+          # the cheapest concurrent FIFO program that reaches the multi-element retry loop of uring_fifo_pop (4 min, 0.8 GB)
+          q("fifo_O|O_cap2_init2_r2", "fifo", ["O", "O"], 2, 2, init=2, timeout=1500, sample=True)]
     if not quick:
         qs += [q("lifo_P|O_cap1_aged", "lifo", ["P", "O"], 1, 4, age=65535, timeout=3000),
                q("lifo_O|O_cap2_init1", "lifo", ["O", "O"], 2, 4, init=1, timeout=3000),
                q("lifo_P|P_cap1", "lifo", ["P", "P"], 1, 4, timeout=3000),
                q("fifo_P|O_cap1", "fifo", ["P", "O"], 1, 4, timeout=4000, stretch=True),
                q("fifo_O|O_cap2_init1", "fifo", ["O", "O"], 2, 4, init=1, timeout=4000, stretch=True),
+               q("fifo_O|O_cap2_init2_r3", "fifo", ["O", "O"], 2, 3, init=2, timeout=4000),
                q("pool_AF|A_cap1", "pool", ["AF", "A"], 1, 5, timeout=4000, stretch=True),
                q("lifo_PO|PO_cap1", "lifo", ["PO", "PO"], 1, 6, timeout=6000, stretch=True),
                q("fifo_PO|OP_cap2", "fifo", ["PO", "OP"], 2, 6, timeout=6000, stretch=True)]
